@@ -183,6 +183,11 @@ def post_state(eng, contract, src, outcome):
                 post_env["_final_" + p] = env.get(p, v)
                 post_env[p] = v
             post_env["result"] = eng.math_view(outcome[1])
+            if contract.slice_drop is not None:
+                # window / suffix slices observe the locals they compute
+                for lname, lval in env.items():
+                    if isinstance(lname, str) and not lname.startswith("_") and ("_local_" + lname) not in post_env:
+                        post_env["_local_" + lname] = lval
             for gname in contract.ghost_results:
                 if gname in env:
                     post_env[gname] = env[gname]
